@@ -182,8 +182,11 @@ func (c C11) Run(t *tape.Tape, opt core.RunOpt) (res core.Result) {
 	if t.Bool(1, 8) {
 		return c.runSubscriptions(t, opt)
 	}
-	strat := []workload.Strategy{workload.StratInterface, workload.StratAny, workload.StratReflect}[t.Draw(3)]
+	strat := []workload.Strategy{workload.StratInterface, workload.StratAny, workload.StratReflect, workload.StratMixed}[t.Draw(4)]
 	q := workload.GenZoo(t)
+	if strat == workload.StratMixed {
+		workload.DrawMixed(t, q)
+	}
 	z, err := workload.NewZoo(q, strat)
 	if err != nil {
 		res.Fatal = err.Error()
@@ -191,7 +194,8 @@ func (c C11) Run(t *tape.Tape, opt core.RunOpt) (res core.Result) {
 	}
 	req := workload.GenRequest(t, workload.ReqOpt{Strat: strat, MultiOp: true, VarInLiteral: strat != workload.StratReflect,
 		ShuffleArgs: true, UnknownArgs: strat != workload.StratReflect, NoErrors: t.Bool(1, 2), MaxDepth: 2 + t.Draw(3),
-		NoUnion: strat == workload.StratInterface})
+		NoUnion: strat == workload.StratInterface || (strat == workload.StratMixed && !(q.Raw["Dog"] && q.Raw["Bird"] && q.Raw["Keeper"] && q.Raw["Cell"])),
+		Introspection: true, VarDirectivesInMeta: true, Pick: true, Ghost: true, Relay: t.Bool(1, 2), Nick: true})
 	res.Evaluations = 1
 	res.Sig = core.Hash64("c11", strat.String(), req.Src)
 	var hist []string
@@ -222,6 +226,11 @@ func (c C11) Run(t *tape.Tape, opt core.RunOpt) (res core.Result) {
 		if t.Bool(1, 4) {
 			k := 1 + t.Draw(8)
 			kind := c06Kinds[t.Draw(len(c06Kinds))]
+			if t.Bool(1, 4) {
+				// the resolver panics and the caller recovers (as an HTTP server
+				// does): the next call must not see anything left behind
+				kind = workload.FaultPanic
+			}
 			plan = &workload.FaultPlan{FailAt: map[int]string{k: kind}}
 			fdesc = fmt.Sprintf(" fault %s at invocation %d", kind, k)
 		}
